@@ -405,7 +405,12 @@ func (vc *VC) callEffects(eff *Effects, call *ast.CallExpr, info *types.Info, de
 			case "new":
 				vc.allocEffect(eff, info.TypeOf(call.Args[0]))
 			case "copy":
-				vc.lhsEffect(eff, call.Args[0], info)
+				// copy into a slice expression (a view) changes no named l-value under value-semantics slices
+				switch ast.Unparen(call.Args[0]).(type) {
+				case *ast.SliceExpr:
+				default:
+					vc.lhsEffect(eff, call.Args[0], info)
+				}
 			}
 			return
 		case *types.Func:
